@@ -2,12 +2,17 @@
   C02 — bulk walk returns exactly what the GETNEXT walk returns.  Property theorems.
   Proved: the GETBULK size bound over the generated expression; on the Python-faithful model, for
   any agent: bulk walks yield nothing outside the roots and nothing twice, independent of the
-  listing order; with one repetition per request the bulk walk IS the GETNEXT walk.  The general
-  equality (any repetition count, any truncation policy) is tied by correspondence only.
+  listing order; with one repetition per request the bulk walk IS the GETNEXT walk; against a
+  conformant agent that answers with any number of repetitions, shortened anywhere behind the
+  first one, the bulk walk is complete (`C02_bulk_complete`) and returns the instance set of the
+  GETNEXT walk (`C02_bulk_eq_getnext`).  Responses shorter than one repetition (completion
+  requests of the fetcher) are tied by correspondence.
 -/
 import Snmp.Gen.Facts
 import Snmp.Model.Walk
 import Snmp.Lemmas.WalkFaithful
+import Snmp.Lemmas.BulkWalk
+import Snmp.Props.C01
 namespace Snmp.Props.C02
 open Snmp Snmp.Walk
 
@@ -121,5 +126,84 @@ theorem C02_size1_eq_getnext (a : AgentFn) (db : List VarBind) (roots : List Oid
   have : bulkFetcher (exchangeOf a db {}) 1 = multigetnext (exchangeOf a db {}) := by
     funext oids; exact bulkFetcher_one a db oids
   rw [this]
+
+/-- **Completeness of the bulk walk.**  `x` is any exchange that answers a GETBULK like a conformant
+    agent holding `db`: between one and max-repetitions repetitions, shortened anywhere behind the
+    first repetition (`ConformantBulk` — "however many repetitions the agent chooses to put into
+    each response"; rows made of endOfMibView included).  For every repetition count ≥ 1, pairwise
+    disjoint roots in any order and a loop budget ≥ `|db|`, the bulk walk ends normally, has
+    yielded every database entry strictly below a root and yields database entries only. -/
+theorem C02_bulk_complete (x : Exchange) (db : List VarBind) (roots : List Oid) (size fuel : Nat)
+    (hsize : 1 ≤ size) (hs : WalkAbs.Sorted (db.map (·.1))) (hv : ∀ vb ∈ db, vb.2.isEom = false)
+    (hpf : PrefixFree roots) (hne : roots ≠ []) (hx : ConformantBulk x db) (hfuel : db.length ≤ fuel) :
+    let r := walkBulk x size roots fuel
+    r.outcome = .done ∧
+    (∀ vb ∈ db, (∃ root ∈ roots, root <+: vb.1 ∧ vb.1 ≠ root) → vb ∈ r.yields) ∧
+    (∀ vb ∈ r.yields, vb ∈ db) := by
+  intro r
+  have h := multiwalk_bulk x db roots size fuel hsize hs hv (prefixFree_sorted roots hpf) hne hx hfuel false
+  refine ⟨h.1, ?_, ?_⟩
+  · intro vb hvb ⟨root, hroot, hpre, hneq⟩
+    have hroot' : root ∈ sortOids roots := (List.mergeSort_perm roots oidLe).mem_iff.mpr hroot
+    have hy := h.2.1 root hroot' vb hvb hpre hneq
+    rw [yieldOids_eq] at hy
+    obtain ⟨vb', hvb', heq⟩ := List.mem_map.mp hy
+    have hdb' := h.2.2 vb' hvb'
+    have : vb' = vb := sorted_keys_inj db hs vb' hdb' vb hvb heq
+    show vb ∈ (multiwalk (bulkFetcher x size) roots false fuel).yields
+    rw [yields_eq]
+    exact this ▸ hvb'
+  · intro vb hvb
+    have hvb' : vb ∈ (multiwalk (bulkFetcher x size) roots false fuel).yields := hvb
+    rw [yields_eq] at hvb'
+    exact h.2.2 vb hvb'
+
+/-- the model's conformant agent under every truncation policy that keeps one repetition is such
+    an exchange (number of repetitions capped, trailing bindings cut, with or without the early stop
+    after an all-endOfMibView repetition) -/
+theorem C02_policies_conformant (db : List VarBind) (pol : BulkPolicy) (hdeep : pol.deep = false) :
+    ConformantBulk (exchangeOf (Agent.conformant db) db pol) db :=
+  exchange_conformantBulk db pol hdeep
+
+/-- **Bulk walk ≡ GETNEXT walk as sets of instances**, each instance once: same agent, same roots,
+    any repetition count, any such truncation policy, strict or lenient GETNEXT walk.  Instances
+    whose OID equals a root are left open, as in the property. -/
+theorem C02_bulk_eq_getnext (db : List VarBind) (pol : BulkPolicy) (roots : List Oid) (size fuel : Nat)
+    (lenient : Bool) (hsize : 1 ≤ size) (hs : WalkAbs.Sorted (db.map (·.1)))
+    (hv : ∀ vb ∈ db, vb.2.isEom = false) (hpf : PrefixFree roots) (hne : roots ≠ [])
+    (hdeep : pol.deep = false) (hfuel : db.length ≤ fuel) :
+    let x := exchangeOf (Agent.conformant db) db pol
+    let b := walkBulk x size roots fuel
+    let g := walkGetnext x roots lenient fuel
+    b.outcome = .done ∧ g.outcome = .done ∧
+    (∀ vb : VarBind, vb.1 ∉ roots → (vb ∈ b.yields ↔ vb ∈ g.yields)) ∧
+    (yieldOids b.events).Nodup ∧ (yieldOids g.events).Nodup := by
+  intro x b g
+  have hb := C02_bulk_complete x db roots size fuel hsize hs hv hpf hne (exchange_conformantBulk db pol hdeep) hfuel
+  have hg := Snmp.Props.C01.C01_complete db pol roots lenient fuel hs hv hpf hfuel
+  have hbs := C02_bulk_sound_nodup x size roots fuel
+  have hgs := Snmp.Props.C01.C01_sound_nodup (multigetnext x) roots lenient fuel
+  refine ⟨hb.1, hg.1, ?_, hbs.1, hgs.1⟩
+  intro vb hnr
+  constructor
+  · intro hvb
+    have hdb := hb.2.2 vb hvb
+    have hvb2 : vb ∈ yieldsOf b.events := by rw [← yields_eq]; exact hvb
+    have hy : vb.1 ∈ yieldOids b.events := by
+      rw [yieldOids_eq]; exact List.mem_map_of_mem (f := fun v : VarBind => v.1) hvb2
+    obtain ⟨r, hr, hpre⟩ := hbs.2 vb.1 hy
+    exact hg.2.1 vb hdb ⟨r, hr, hpre, fun h => hnr (h ▸ hr)⟩
+  · intro hvb
+    have hdb := hg.2.2 vb hvb
+    have hvb2 : vb ∈ yieldsOf g.events := by rw [← yields_eq]; exact hvb
+    have hy : vb.1 ∈ yieldOids g.events := by
+      rw [yieldOids_eq]; exact List.mem_map_of_mem (f := fun v : VarBind => v.1) hvb2
+    obtain ⟨r, hr, hpre⟩ := hgs.2 vb.1 hy
+    exact hb.2.1 vb hdb ⟨r, hr, hpre, fun h => hnr (h ▸ hr)⟩
+
+/- the hypotheses are satisfiable: three adjacent subtrees of different sizes, one empty -/
+example : WalkAbs.Sorted ([([1,3,1,1], Val.int 1), ([1,3,1,2], Val.int 2), ([1,3,3,1], Val.null)].map (·.1))
+    ∧ PrefixFree [[1,3,3],[1,3,1],[1,3,2]] ∧ ({ rows := some 2, cut := 1 } : BulkPolicy).deep = false := by
+  refine ⟨by unfold WalkAbs.Sorted; decide, by unfold PrefixFree; decide, rfl⟩
 
 end Snmp.Props.C02
